@@ -50,9 +50,12 @@ Record row := mkRow {
 Inductive qout := QRows (rows : list row) | QError (kind : N).
 
 Inductive extra :=
-| XBucket (name : bytes) (kvs : list (bytes * bytes))
+| XBucket (name : bytes) (kvs : list (bytes * bytes))   (* raw dump of a bucket (for "points": all keys except data keys) *)
+| XDocs (name : bytes) (kds : list (bytes * doc))      (* the data keys of the points bucket with their decoded documents *)
 | XNodeIds (m : list (uuid * N))
 | XTokens (m : list (bytes * list bytes))        (* analysed tokens of every text value that occurs *)
+| XF32s (bucket key : bytes) (vals : list N)       (* a float32 array persisted under a reserved key (thresholds, centroids) *)
+| XOracle (qi : N) (dists : list (bytes * N))      (* for request number qi: harness-side float64 reference distance (bits) per candidate id *)
 | XNote (n : N).
 
 Record step := mkStep {
